@@ -81,7 +81,9 @@ def order1(ctx: Ctx, chk) -> None:
     # pre_load: dict(zip(self.fields, <split result>))
     chk.instance(rule)
     zips = [n for n in ctx.own_nodes(pre) if isinstance(n, ast.Call) and isinstance(n.func, ast.Name) and n.func.id == "zip"]
-    ok = len(zips) == 1 and len(zips[0].args) == 2 and norm(zips[0].args[0]) == "self.fields"
+    from ..prov import Canon
+
+    ok = len(zips) == 1 and len(zips[0].args) == 2 and Canon(I, pre, "").canon(zips[0].args[0]) == "self.fields"
     if ok:
         chk.ok(rule, fkey(pre, zips[0]), "split result zipped onto self.fields in field order", ctx.loc(pre, zips[0]))
     elif zips:
@@ -90,7 +92,7 @@ def order1(ctx: Ctx, chk) -> None:
         raise AnalysisError(f"ORDER-1: pre_load hook {pre.fq} has no zip(self.fields, ...) - shape not recognised")
     # post_dump: join over [.. for field in self.fields]
     chk.instance(rule)
-    comps = [n for n in ctx.own_nodes(post) if isinstance(n, (ast.ListComp, ast.GeneratorExp))]
+    comps = [n for r_ in encoded_line_trees(ctx, post) for n in ast.walk(r_) if isinstance(n, (ast.ListComp, ast.GeneratorExp))]
     okc = [c for c in comps if len(c.generators) == 1 and norm(c.generators[0].iter) == "self.fields"]
     if len(okc) == 1:
         c = okc[0]
@@ -104,77 +106,73 @@ def order1(ctx: Ctx, chk) -> None:
         raise AnalysisError(f"ORDER-1: post_dump hook {post.fq}: join over self.fields not recognised")
 
 
+def encoded_line_trees(ctx: Ctx, post) -> list:
+    """The expressions post_dump can return, with single-assignment locals written out and constants folded."""
+    from ..prov import Canon
+
+    cn = Canon(ctx.I, post, "")
+    return [cn.tree(r.value) for r in ctx.own_nodes(post) if isinstance(r, ast.Return) and r.value is not None]
+
+
 def delim2(ctx: Ctx, chk) -> None:
     rule = "DELIM-2"
     chk.rule(rule, "split and join use the same delimiter ';'; the dumped string is the join plus exactly one '\\n'; on load only trailing whitespace of the whole line is removed")
     I = ctx.I
     schema, hooks = schema_hooks(ctx)
     pre, post = hooks["pre_load"][0], hooks["post_dump"][0]
-    # join separator
-    joins = [n for n in ctx.own_nodes(post) if isinstance(n, ast.Call) and isinstance(n.func, ast.Attribute) and n.func.attr == "join"]
-    if len(joins) != 1:
-        raise AnalysisError(f"DELIM-2: expected one join in {post.fq}, found {len(joins)}")
-    j = joins[0]
-    chk.instance(rule)
-    try:
-        sep = I.folder.fold(post.module, j.func.value)
-    except Unfoldable as err:
-        raise AnalysisError(f"DELIM-2: cannot fold join separator: {err}") from err
-    if sep == ";":
-        chk.ok(rule, fkey(post, j.func.value) + "::join-separator", "join separator folds to ';'", ctx.loc(post, j))
-    else:
-        chk.refute(rule, fkey(post, j.func.value) + "::join-separator", f"fields are joined with {sep!r}, the wire delimiter is ';'", ctx.loc(post, j))
-    # the returned string: f"{join}\n"  (exactly one newline, nothing else)
-    chk.instance(rule)
-    js = I.prog.parents.get(I.prog.parents.get(j))  # FormattedValue -> JoinedStr
-    shape = None
-    node = I.prog.parents.get(j)
-    if isinstance(node, ast.FormattedValue) and isinstance(js, ast.JoinedStr):
-        consts = "".join(str(v.value) for v in js.values if isinstance(v, ast.Constant))
-        nfv = sum(1 for v in js.values if isinstance(v, ast.FormattedValue))
-        first_is_join = isinstance(js.values[0], ast.FormattedValue)
-        shape = (consts, nfv, first_is_join)
-        key = fkey(post, js) + "::terminator"
-        if consts == "\n" and nfv == 1 and first_is_join and node.conversion == -1 and node.format_spec is None:
-            chk.ok(rule, key, "encoded form is the join followed by exactly one newline", ctx.loc(post, js))
-        else:
-            chk.refute(rule, key, f"encoded form is not '<fields>\\n': literal parts {consts!r}, {nfv} interpolations", ctx.loc(post, js))
-    elif isinstance(node, ast.BinOp) and isinstance(node.op, ast.Add) and node.left is j and isinstance(node.right, ast.Constant):
-        key = fkey(post, node) + "::terminator"
-        if node.right.value == "\n":
-            chk.ok(rule, key, "encoded form is the join followed by exactly one newline", ctx.loc(post, node))
-        else:
-            chk.refute(rule, key, f"encoded form ends with {node.right.value!r} instead of a single newline", ctx.loc(post, node))
-    else:
-        raise AnalysisError(f"DELIM-2: terminator shape not recognised in {post.fq}")
-    # what is returned is that string, unmodified
-    chk.instance(rule)
-    rets = [n for n in ctx.own_nodes(post) if isinstance(n, ast.Return) and n.value is not None]
-    bad = None
-    for r in rets:
-        v = r.value
-        if isinstance(v, ast.Name):
-            la = I.local_assigns(post).get(v.id) or []
-            if len(la) != 1 or la[0] is None:
-                bad = r
+    # the returned expression with single-assignment locals written out and constants folded:
+    # it must be  f"{<sep>.join(<fields>)}\n"  or  <sep>.join(<fields>) + "\n"
+    trees = encoded_line_trees(ctx, post)
+    if not trees:
+        raise AnalysisError(f"DELIM-2: {post.fq} returns nothing")
+    for t in trees:
+        chk.instance(rule)
+        loc = ctx.loc(post, post.node)
+        j = None
+        term = None
+        if isinstance(t, ast.JoinedStr):
+            fvs = [v for v in t.values if isinstance(v, ast.FormattedValue)]
+            consts = "".join(str(v.value) for v in t.values if isinstance(v, ast.Constant))
+            if len(fvs) == 1 and t.values and t.values[0] is fvs[0] and fvs[0].conversion == -1 and fvs[0].format_spec is None and isinstance(fvs[0].value, ast.Call):
+                j, term = fvs[0].value, consts
+            else:
+                chk.refute(rule, f"{post.fq}::terminator", f"encoded form `{norm(t)[:80]}` is not '<fields>\\n': literal parts {consts!r}, {len(fvs)} interpolations", loc)
                 continue
-            v = la[0]
-        if not (isinstance(v, (ast.JoinedStr, ast.BinOp))):
-            bad = r
-    if bad is None and rets:
-        chk.ok(rule, f"{post.fq}::return", "returns the joined string unmodified", ctx.loc(post, rets[0]))
-    else:
-        chk.refute(rule, f"{post.fq}::return", f"post_dump returns `{norm(bad.value) if bad else '?'}`, not the joined line", ctx.loc(post, bad or post.node))
+        elif isinstance(t, ast.BinOp) and isinstance(t.op, ast.Add) and isinstance(t.left, ast.Call) and isinstance(t.right, ast.Constant):
+            j, term = t.left, t.right.value
+        if j is None or not (isinstance(j.func, ast.Attribute) and j.func.attr == "join" and len(j.args) == 1):
+            raise AnalysisError(f"DELIM-2: encoded-line shape `{norm(t)[:80]}` not recognised in {post.fq}")
+        sepn = j.func.value
+        sep = sepn.value if isinstance(sepn, ast.Constant) else None
+        if sep is None:
+            try:
+                sep = I.folder.fold(post.module, sepn)
+            except Unfoldable as err:
+                raise AnalysisError(f"DELIM-2: cannot fold join separator: {err}") from err
+        if sep == ";":
+            chk.ok(rule, f"{post.fq}::join-separator", "join separator folds to ';'", loc)
+        else:
+            chk.refute(rule, f"{post.fq}::join-separator", f"fields are joined with {sep!r}, the wire delimiter is ';'", loc)
+        chk.instance(rule)
+        if term == "\n":
+            chk.ok(rule, f"{post.fq}::terminator", "encoded form is the join followed by exactly one newline", loc)
+        else:
+            chk.refute(rule, f"{post.fq}::terminator", f"encoded form ends with {term!r} instead of a single newline", loc)
+        chk.instance(rule)
+        chk.ok(rule, f"{post.fq}::return", "returns the joined string unmodified", loc, sample=False)
     # pre_load: only rstrip() (no args) on the whole line before the split
     sites = [s for s in codec.split_sites(I) if s.func is pre]
     for s in sites:
         chk.instance(rule)
+        from ..prov import Canon
+
         recv = s.call.func.value
-        key = fkey(pre, recv) + "::strip"
         param = pre.positional_params[1]
-        if isinstance(recv, ast.Name) and recv.id == param:
+        rtxt = Canon(I, pre, "").canon(recv)
+        key = f"{pre.fq}::{rtxt[:60]}::strip"
+        if rtxt == param:
             chk.ok(rule, key, "line split unmodified", ctx.loc(pre, s.call))
-        elif isinstance(recv, ast.Call) and isinstance(recv.func, ast.Attribute) and recv.func.attr == "rstrip" and not recv.args and isinstance(recv.func.value, ast.Name) and recv.func.value.id == param:
+        elif rtxt == f"{param}.rstrip()":
             chk.ok(rule, key, "only trailing whitespace (incl. the terminator) removed before the split", ctx.loc(pre, s.call))
         else:
             chk.refute(rule, key, f"the line is preprocessed by `{norm(recv)}` before the split: anything but rstrip() alters fields the property keeps (leading blanks, inner characters)", ctx.loc(pre, s.call))
